@@ -1605,7 +1605,19 @@ func (f *fnTrans) atAnchor(ins ssa.Instruction) {
 	if len(cls) == 0 {
 		return
 	}
-	env := f.env(f.curB, f.cur, nil)
+	extra := map[string]TV{}
+	if call, ok := ins.(*ssa.Call); ok {
+		// the results of the call this clause is attached to
+		rs := call.Common().Signature().Results()
+		if tv, ok := f.tupleVals[call]; ok {
+			for i := 0; i < rs.Len() && i < len(tv); i++ {
+				extra[resName(i)] = TV{tv[i], rs.At(i).Type()}
+			}
+		} else if v, ok := f.vals[call]; ok && rs.Len() == 1 {
+			extra[resName(0)] = TV{v, rs.At(0).Type()}
+		}
+	}
+	env := f.env(f.curB, f.cur, extra)
 	for k, cl := range cls {
 		t, err := env.EvalBool(cl.Expr)
 		if err != nil {
